@@ -23,6 +23,22 @@ CHECKS: dict[str, tuple[str, str, str, str]] = {
         "trusted: the 40-line full-copy model in pv/checks/c09.py; ParserState histories are well-nested as in real parses",
         "DESIGN.md 4/C09",
     ),
+    "C14": (
+        "reference-model monitor over exhaustively enumerated texts, offsets and spans",
+        "Every text over {a,b,\\n} (and over {e-acute, astral char, \\n}) up to the length bound, every offset 0..len and every span "
+        "a<=b is pushed through Position/Span/Pair utilities and compared with a 2-line count/rfind reference; long and non-ASCII "
+        "texts are sampled. Exhaustive inside the bound only.",
+        "trusted: ref_line_col/ref_lines in pv/checks/c14.py; line breaks are '\\n' only, as the statement says",
+        "DESIGN.md 4/C14",
+    ),
+    "C18": (
+        "differential monitor: binding-power reference + algorithm-independent tree-constraint validator over exhaustive and random token streams",
+        "For seeded operator tables all well-formed streams up to the length bound (exhaustive per table) and random longer streams "
+        "are parsed by PrattParser.parse_expr; each tree is compared with a binding-power reference after pest's pratt_parser.rs and "
+        "independently validated against local precedence/associativity constraints. Bounded exploration of tables and streams.",
+        "trusted: ref_parse + validate_tree in pv/checks/c18.py (they cross-check each other on every case; disagreement = inconclusive)",
+        "DESIGN.md 4/C18",
+    ),
 }
 
 PENDING_REASON = "check not built yet in this revision of /verif (runtime monitor planned, see DESIGN.md section 4)"
